@@ -861,4 +861,154 @@ theorem drop_waits_nothing_held (c : Cfg) (t : Term) (h : AllStart c) (hcap : ca
           simp [closedBy, List.range_succ, h1, hp]
 
 
+
+
+theorem closedBy_of_mem (c : Cfg) (taken : List End) (k i : Nat) (e : End) (hi : i < k)
+    (hm : e ∈ popenEnds c i) (ht : e ∉ taken) : closedBy c taken k e = true := by
+  simp only [closedBy, List.any_eq_true, List.mem_range]
+  exact ⟨i, hi, by simp [hm, ht]⟩
+
+/-- what is held after all n commands were started and the capture pipe's writer was released -/
+theorem heldStagesR_cases (c : Cfg) (cap : Bool) (e : End) (hn : 0 < c.n) (hce : hasErrPipe c = true → cap = false)
+    (h : heldStages c (capHeldR cap) c.n e ≠ none) :
+    (e = ⟨1, .w⟩ ∧ hasInPipe c = true) ∨ (e = ⟨2 + (c.n - 1), .r⟩ ∧ hasOutPipe c (c.n - 1) = true) ∨
+    (e = ⟨0, .r⟩ ∧ (hasErrPipe c = true ∨ cap = true)) := by
+  have : ¬ c.n = 0 := by omega
+  simp only [heldStages, this, if_false] at h
+  by_cases h1 : e = ⟨1, .w⟩ ∧ hasInPipe c = true
+  · exact Or.inl h1
+  · by_cases h2 : e = ⟨2 + (c.n - 1), .r⟩ ∧ hasOutPipe c (c.n - 1) = true
+    · exact Or.inr (Or.inl h2)
+    · by_cases h3 : hasErrPipe c = true ∧ e = ⟨0, .r⟩
+      · exact Or.inr (Or.inr ⟨h3.2, Or.inl h3.1⟩)
+      · simp only [h1, h2, h3, if_false] at h
+        simp only [capHeldR] at h
+        split at h
+        · rename_i hc; exact Or.inr (Or.inr ⟨hc.2, Or.inr hc.1⟩)
+        · exact absurd rfl h
+
+theorem relW_heldStages (c : Cfg) (cap : Bool) (k : Nat) :
+    heldAfter (heldStages c (capHeld cap) k) (if cap then [Act.close ⟨0, .w⟩] else []) = heldStages c (capHeldR cap) k := by
+  cases cap
+  · have : capHeld false = capHeldR false := by funext e; simp [capHeld, capHeldR]
+    simp [this]
+  · funext e
+    obtain ⟨p, s⟩ := e
+    by_cases hk : k = 0
+    · subst hk
+      cases s <;> by_cases hp : p = 0 <;> simp [heldStages, capHeld, capHeldR, heldAfter, stepHeld, hp]
+    · have e1 : ¬ (0 = 2 + (k - 1)) := by omega
+      cases s <;> by_cases hp : p = 0 <;> by_cases hp1 : p = 1 <;>
+        simp [heldStages, capHeld, capHeldR, heldAfter, stepHeld, hp, hp1, hk, e1] <;> omega
+
+
+theorem mem_popenEnds_in (c : Cfg) (h : hasInPipe c = true) : (⟨1, .w⟩ : End) ∈ popenEnds c 0 := by simp [popenEnds, h]
+theorem mem_popenEnds_err (c : Cfg) (h : hasErrPipe c = true) : (⟨0, .r⟩ : End) ∈ popenEnds c 0 := by simp [popenEnds, h]
+theorem mem_popenEnds_out (c : Cfg) (hn : 0 < c.n) (h : hasOutPipe c (c.n - 1) = true) :
+    (⟨2 + (c.n - 1), .r⟩ : End) ∈ popenEnds c (c.n - 1) := by
+  have : c.n - 1 + 1 = c.n := by omega
+  simp [popenEnds, this, h]
+
+/-- **nothing is left**: when the terminator has returned and the handle it returned has been dropped, the parent
+    holds no pipe end the library created -- for every terminator, every length, every stream configuration -/
+theorem ok_final_empty (c : Cfg) (t : Term) (h : AllStart c) (hn : 0 < c.n) :
+    heldAfter Held.empty (runEff c t) = Held.empty := by
+  rw [runEff_ok c t h]
+  have h0p : ∀ e : End, 1 ≤ e.pipe → capHeld (capPipe c t) e = none := by
+    intro e he; simp [capHeld]; omega
+  have h0e : hasErrPipe c = true → ∀ e, capHeld (capPipe c t) e = none := by
+    intro h e; simp [capHeld, capPipe_errPipe c t h]
+  simp only [heldAfter_append, capHeld_pre, stages_held c (att2 c t) _ c.n (Nat.le_refl _) h0p h0e, relW_heldStages]
+  generalize hH : heldStages c (capHeldR (capPipe c t)) c.n = H
+  have hcases := fun e (he : H e ≠ none) =>
+    heldStagesR_cases c (capPipe c t) e hn (fun h => capPipe_errPipe c t h) (by rw [hH]; exact he)
+  have hlast : c.n - 1 < c.n := by omega
+  have hcapF : ∀ t', (t' = Term.popen ∨ t' = .join ∨ t' = .streamStdout ∨ t' = .streamStderr ∨ t' = .streamStdin) → capPipe c t' = false := by
+    intro t' ht; rcases ht with rfl | rfl | rfl | rfl | rfl <;> simp [capPipe]
+  cases t with
+  | popen =>
+    simp only [tail, heldAfter_append, heldAfter_cons, heldAfter_nil, stepHeld, dropVec_held]
+    funext e
+    show _ = none
+    cases hHe : H e with
+    | none => simp [hHe]
+    | some b =>
+      rcases hcases e (by simp [hHe]) with ⟨rfl, hi⟩ | ⟨rfl, ho⟩ | ⟨rfl, hE | hE⟩
+      · simp [closedBy_of_mem c [] c.n 0 _ hn (mem_popenEnds_in c hi) (by simp <;> omega)]
+      · simp [closedBy_of_mem c [] c.n (c.n - 1) _ hlast (mem_popenEnds_out c hn ho) (by simp <;> omega)]
+      · simp [closedBy_of_mem c [] c.n 0 _ hn (mem_popenEnds_err c hE) (by simp <;> omega)]
+      · simp [capPipe] at hE
+  | streamStderr =>
+    simp only [tail, heldAfter_append, heldAfter_cons, heldAfter_nil, stepHeld, dropVec_held]
+    funext e
+    show _ = none
+    cases hHe : H e with
+    | none => simp [hHe]
+    | some b =>
+      rcases hcases e (by simp [hHe]) with ⟨rfl, hi⟩ | ⟨rfl, ho⟩ | ⟨rfl, hE | hE⟩
+      · simp [closedBy_of_mem c [] c.n 0 _ hn (mem_popenEnds_in c hi) (by simp <;> omega)]
+      · simp [closedBy_of_mem c [] c.n (c.n - 1) _ hlast (mem_popenEnds_out c hn ho) (by simp <;> omega)]
+      · simp [closedBy_of_mem c [] c.n 0 _ hn (mem_popenEnds_err c hE) (by simp <;> omega)]
+      · simp [capPipe] at hE
+  | join =>
+    simp only [tail, heldAfter_append, heldAfter_cons, heldAfter_nil, stepHeld, dropVec_held]
+    funext e
+    show _ = none
+    cases hHe : H e with
+    | none => simp [hHe]
+    | some b =>
+      rcases hcases e (by simp [hHe]) with ⟨rfl, hi⟩ | ⟨rfl, ho⟩ | ⟨rfl, hE | hE⟩
+      · simp [closedBy_of_mem c [] c.n 0 _ hn (mem_popenEnds_in c hi) (by simp <;> omega)]
+      · simp [closedBy_of_mem c [] c.n (c.n - 1) _ hlast (mem_popenEnds_out c hn ho) (by simp <;> omega)]
+      · simp [closedBy_of_mem c [] c.n 0 _ hn (mem_popenEnds_err c hE) (by simp <;> omega)]
+      · simp [capPipe] at hE
+  | streamStdout =>
+    simp only [tail, heldAfter_append, heldAfter_cons, heldAfter_nil, stepHeld, dropVec_held]
+    funext e
+    show _ = none
+    cases hHe : H e with
+    | none => simp [hHe]
+    | some b =>
+      rcases hcases e (by simp [hHe]) with ⟨rfl, hi⟩ | ⟨rfl, ho⟩ | ⟨rfl, hE | hE⟩
+      · simp [closedBy_of_mem c [⟨2 + (c.n - 1), .r⟩] c.n 0 _ hn (mem_popenEnds_in c hi) (by simp <;> omega)]
+      · simp
+      · simp [closedBy_of_mem c [⟨2 + (c.n - 1), .r⟩] c.n 0 _ hn (mem_popenEnds_err c hE) (by simp <;> omega)]
+      · simp [capPipe] at hE
+  | streamStdin =>
+    simp only [tail, heldAfter_append, heldAfter_cons, heldAfter_nil, stepHeld, dropVec_held]
+    funext e
+    show _ = none
+    cases hHe : H e with
+    | none => simp [hHe]
+    | some b =>
+      rcases hcases e (by simp [hHe]) with ⟨rfl, hi⟩ | ⟨rfl, ho⟩ | ⟨rfl, hE | hE⟩
+      · simp
+      · simp [closedBy_of_mem c [⟨1, .w⟩] c.n (c.n - 1) _ hlast (mem_popenEnds_out c hn ho) (by simp <;> omega)]
+      · simp [closedBy_of_mem c [⟨1, .w⟩] c.n 0 _ hn (mem_popenEnds_err c hE) (by simp <;> omega)]
+      · simp [capPipe] at hE
+  | capture =>
+    simp only [tail, heldAfter_append, heldAfter_closes, heldAfter_cons, heldAfter_nil, stepHeld, dropVec_held]
+    funext e
+    show _ = none
+    cases hHe : H e with
+    | none => simp [hHe]
+    | some b =>
+      rcases hcases e (by simp [hHe]) with ⟨rfl, hi⟩ | ⟨rfl, ho⟩ | ⟨rfl, hE⟩
+      · simp [commWriteEnds, hi]
+      · simp [commReadEnds, ho]
+      · have : (capPipe c .capture || hasErrPipe c) = true := by rcases hE with hE | hE <;> simp [hE]
+        simp [commReadEnds, this]
+  | communicate =>
+    simp only [tail, heldAfter_append, heldAfter_closes, heldAfter_cons, heldAfter_nil, stepHeld, dropVec_held]
+    funext e
+    show _ = none
+    cases hHe : H e with
+    | none => simp [hHe]
+    | some b =>
+      rcases hcases e (by simp [hHe]) with ⟨rfl, hi⟩ | ⟨rfl, ho⟩ | ⟨rfl, hE⟩
+      · simp [commEnds, commWriteEnds, hi]
+      · simp [commEnds, commReadEnds, ho]
+      · have : (capPipe c .communicate || hasErrPipe c) = true := by rcases hE with hE | hE <;> simp [hE]
+        simp [commEnds, commReadEnds, this]
+
 end Pipe
